@@ -388,3 +388,60 @@ def main_wrapper(fn):
     except subprocess.TimeoutExpired as e:
         print(f"TOOL-ERROR: timeout {e}")
         sys.exit(2)
+
+
+# ------------------------------------------------------------------------------------------------ crash-contained driver runs
+def classify_stderr(err):
+    e = err[-3000:]
+    if "has overflowed its stack" in e or "stack overflow" in e:
+        return "stack_overflow"
+    if "invalid value for `char`" in e or "char::from_u32_unchecked" in e:
+        return "invalid_char"
+    if "unsafe precondition" in e:
+        return "unsafe_precondition"
+    if "memory allocation of" in e or "capacity overflow" in e or "alloc" in e.lower() and "failed" in e.lower():
+        return "alloc"
+    return "signal"
+
+
+def run_contained(driver, cases_path, out_path, extra=(), case_timeout=20, mem_mb=4096, overall_timeout=3000):
+    """Run `icyverif <driver> --cases F --out T` restarting after every case that kills the worker (abort, stack
+    overflow, allocation failure, hang).  Each such case is recorded as a `crash` event in the trace, with the case
+    itself attached for the replay file.  Returns the list of crash records."""
+    cases = [json.loads(l) for l in open(cases_path)]
+    start = 0
+    crashes = []
+    t0 = time.time()
+    progress = out_path + ".progress"
+    if os.path.exists(out_path):
+        os.remove(out_path)
+    while start < len(cases):
+        if time.time() - t0 > overall_timeout:
+            raise ToolError(f"driver {driver} exceeded the overall time limit")
+        p = subprocess.run([BIN, driver, "--cases", cases_path, "--out", out_path, "--start", str(start), "--progress", progress,
+                            "--case-timeout", str(case_timeout), "--mem-mb", str(mem_mb)] + [str(x) for x in extra],
+                           cwd=ROOT, stdout=subprocess.DEVNULL, stderr=subprocess.PIPE, text=True, errors="replace",
+                           env=dict(os.environ, VERIF_REPO=REPO, RUST_BACKTRACE="0"), timeout=overall_timeout)
+        if p.returncode == 0:
+            break
+        try:
+            k, what = open(progress).read().split()[:2]
+            k = int(k)
+        except Exception:
+            log(p.stderr[-3000:])
+            raise ToolError(f"driver {driver} died without a progress record (exit {p.returncode})")
+        if what == "done":
+            break
+        kind = "timeout" if what == "timeout" else "abort"
+        msg = "timeout" if kind == "timeout" else classify_stderr(p.stderr)
+        c = cases[k]
+        rec = {"ev": "crash", "case": str(c.get("id", k)), "emu": c.get("emu", c.get("fmt", "?")), "kind": kind, "msg": msg, "sig": p.returncode,
+               "n": len(c.get("bytes", [])), "detail": p.stderr[-400:].replace("\n", " | ")}
+        with open(out_path, "a") as f:
+            f.write(json.dumps(rec, separators=(",", ":")) + "\n")
+        crashes.append(dict(rec, input=c))
+        log(f"[drive] case {k} ({c.get('id')}) killed the worker: {kind}/{msg}")
+        start = k + 1
+        if len(crashes) > 200:
+            raise ToolError("more than 200 worker crashes in one run - giving up")
+    return crashes
